@@ -36,6 +36,7 @@ def mboxops_jobs(prop, tier):
             for nd in (0, 1, 2):
                 for idle in (False, True):
                     add(f"resync_step[n={n},nd={nd},idle={int(idle)}]", "resync_step", n=n, nd=nd, idle=idle)
+        add("resync_step[n=2,nd=2,idle=0,kshift=3]", "resync_step", n=2, nd=2, idle=False, kshift=3)
     if "pack_step" in steps:
         shapes = [[2, 3, 1, 1], [1, 1, 1, 1], [3, 1, 1, 2]] if q else [[2, 3, 1, 1], [1, 1, 1, 1], [3, 1, 1, 2], [1, 1, 4, 1], [4, 4, 4, 4], [1, 2, 1, 1]]
         for n in ([3] if q else [1, 2, 3, 4]):
@@ -74,9 +75,16 @@ SAMPLES = {
 }
 
 
+# CrossHair's tracing replaces set arithmetic by an insertion-ordered model, so behaviour that depends on the
+# interpreter's set iteration order ({7, 8} iterates as 8, 7) is invisible to the symbolic run even with
+# concrete ints.  This concrete replay (outside CrossHair) is the guard for the one place where asimap turns a
+# set of new message keys into a list.
+SAMPLES["resync_step_kshift"] = {"module": M, "fn": "resync_step", "params": {"n": 2, "nd": 2, "idle": False, "kshift": 3}, "args": {"k1": 1, "k2": 2, "k3": 1, "u1": 2, "u2": 1, "u3": 3, "slack": 0, "nd": 2, "g": 1, "un1": True, "un2": False, "s1": True, "s2": False, "s3": True, "stale": False, "bump": True, "idle": False}, "note": "interpreter set order: delivered keys 7, 8"}
+
+
 def samples_for(prop):
     out = []
-    for st in STEPS[prop]:
+    for st in STEPS[prop] + (["resync_step_kshift"] if "resync_step" in STEPS[prop] else []):
         s = dict(SAMPLES[st])
         s["params"] = dict(s["params"], prop=prop)
         out.append(s)
